@@ -1,5 +1,8 @@
 """property id -> harness modules (each exposes obligations(tier) -> [Ob])."""
 REGISTRY = {
+    "C06": ["vf.harness.c06"],
+    "C10": ["vf.harness.c10"],
+    "C12": ["vf.harness.c12"],
     "C13": ["vf.harness.c13"],
     "C14": ["vf.harness.c14"],
     "C15": ["vf.harness.c15"],
